@@ -183,6 +183,13 @@ func TempDir() string {
 func CrashScope(f func()) bool {
 	if rep.Crashed {
 		root := TempDir()
+		// the snapshot is the whole tree under root: drop what a set-up that
+		// ran natively before the scope left there and the snapshot lacks
+		if old, err := os.ReadDir(root); err == nil {
+			for _, o := range old {
+				os.RemoveAll(filepath.Join(root, o.Name()))
+			}
+		}
 		for _, e := range rep.FS {
 			p := filepath.Join(root, e.Path)
 			switch e.Kind {
